@@ -269,10 +269,11 @@ Proof.
     rewrite src_remove_encoding_eq. destruct (remove_encoding l) as [l1 b1]. cbn [lcall fst snd].
     rewrite src_remove_nonlinguistic_modifier_eq. destruct (remove_nonlinguistic_modifier l1) as [l2 b2]. cbn [fst snd].
     assert (Hq : ((if q5 then 1 else 0) <=? 0)%Z = negb q5) by (destruct q5; reflexivity).
+    assert (Hq' : (0 >=? (if q5 then 1 else 0))%Z = negb q5) by (destruct q5; reflexivity).
     destruct b1, b2; cbn [flag opt_true lbind lcall]; rewrite src_fix_codes_eq;
       (destruct (fix_codes cfg l2) as [[l3 [|]]|e|k] eqn:Hf; cbn [of_fix flag opt_true lcall lbind ltry catches is_language_error];
        [| | |exfalso; exact (fix_codes_no_crash _ _ _ Hf)]);
-      rewrite ?src_str_eq, ?Hq; unfold drop_of, path_names; cbn [app]; rewrite ?app_nil_r, <- ?app_assoc;
+      rewrite ?src_str_eq, ?Hq, ?Hq'; unfold drop_of, path_names; cbn [app]; rewrite ?app_nil_r, <- ?app_assoc;
       try (destruct (negb q5 && _); reflexivity); reflexivity. }
   (* everything after the analysis of the field, for whatever it produced *)
   set (nf := negb (negb (is_nil o)) && negb dupdiff).
